@@ -596,10 +596,12 @@ Lemma name_char_facts b : is_name_char b = true ->
   (b =? c_colon) = false /\ (b =? c_gt) = false /\ (b =? c_slash) = false /\ is_xml_blank b = false /\ b < 128.
 Proof. chars. lia. Qed.
 Lemma name_start_facts b : is_name_start b = true ->
-  (b =? c_slash) = false /\ (b =? c_qm) = false /\ (b =? c_bang) = false /\ (b =? c_colon) = false /\ is_name_char b = true /\ b < 128.
+  (b =? c_slash) = false /\ (b =? c_qm) = false /\ (b =? c_bang) = false /\ (b =? c_colon) = false /\ is_name_char b = true /\ b < 128
+  /\ (128 <=? b) = false.
 Proof. chars. lia. Qed.
 Lemma blank_facts b : is_xml_blank b = true ->
-  is_name_char b = false /\ (b =? c_colon) = false /\ (b =? c_gt) = false /\ (b =? c_slash) = false /\ b < 128.
+  is_name_char b = false /\ (b =? c_colon) = false /\ (b =? c_gt) = false /\ (b =? c_slash) = false /\ b < 128
+  /\ (128 <=? b) = false.
 Proof. chars. lia. Qed.
 
 Notation B := Build_lstate.
@@ -627,7 +629,7 @@ Proof.
     assert (E4 : (c =? c_cr) = false) by (chars; lia).
     assert (E5 : (q =? c_cr) && (c =? c_nl) = false) by (chars; lia).
     rewrite E1, E2, E3, E4. cbn [b1]. rewrite E5, H5. reflexivity.
-  - intros (H1 & H2 & H3). exists 0.
+  - intros (H1 & H2 & H3 & H4). exists 0.
     cbn [fold_left]. rewrite fold_left_app.
     assert (E0 : lex_step (B MText t p q o Clean) c_amp = B (MEnt []) t p q o Clean).
     { unfold lex_step, text_step. cbn [mode b0 b1].
@@ -653,11 +655,26 @@ Proof.
     unfold text_chars. cbn [map rev]. rewrite <- app_assoc. reflexivity.
 Qed.
 
-Lemma lex_lt t p q o : lex_step (B MText t p q o Clean) c_lt = B MLt [] 0 0 (flushed t o) Clean.
+Definition ascii (s : bytes) : Prop := Forall (fun c => c < 128) s.
+Lemma utf8_valid_ascii s : ascii s -> utf8_valid s = true.
 Proof.
-  unfold lex_step, text_step. cbn [mode b0 b1]. replace (c_lt =? c_gt) with false by reflexivity.
+  unfold utf8_valid. induction 1 as [|c s Hc Hs IH]; [reflexivity|]. cbn [utf8_from utf8_step].
+  destruct (c <? 128) eqn:E; [exact IH|lia].
+Qed.
+Lemma ascii_rev s : ascii s -> ascii (rev s).
+Proof. intros H. apply Forall_forall. intros x Hx. apply in_rev in Hx. unfold ascii in H. rewrite Forall_forall in H. auto. Qed.
+
+Lemma flush_ascii t p q o : ascii t -> flush (B MText t p q o Clean) = B MText [] 0 0 (flushed t o) Clean.
+Proof.
+  intros H. unfold flush, flushed. cbn [mode txt b0 b1 out st]. rewrite utf8_valid_ascii by (rewrite frev_rev; apply ascii_rev; assumption).
+  destruct t; reflexivity.
+Qed.
+
+Lemma lex_lt t p q o : ascii t -> lex_step (B MText t p q o Clean) c_lt = B MLt [] 0 0 (flushed t o) Clean.
+Proof.
+  intros H. unfold lex_step, text_step. cbn [mode b0 b1]. replace (c_lt =? c_gt) with false by reflexivity.
   rewrite andb_false_r. replace (c_lt =? c_lt) with true by reflexivity.
-  unfold set_mode, flush, flushed. cbn [mode txt b0 b1 out st]. destruct t; reflexivity.
+  rewrite flush_ascii by assumption. reflexivity.
 Qed.
 
 Lemma lex_start_name_chars : forall r acc t p q o,
@@ -698,10 +715,10 @@ Lemma lex_start_tail name ws o : ws_ok ws ->
 Proof.
   intros HW. destruct ws as [|b ws].
   - cbn [app fold_left]. unfold lex_step. cbn [mode]. rewrite frev_rev, rev_involutive. split; reflexivity.
-  - inversion HW as [|? ? Hb HW']; subst. destruct (blank_facts _ Hb) as (F1 & F2 & F3 & F4 & _).
+  - inversion HW as [|? ? Hb HW']; subst. destruct (blank_facts _ Hb) as (F1 & F2 & F3 & F4 & _ & F6).
     cbn [app fold_left].
     assert (E : lex_step (B (MStartName (rev name)) [] 0 0 o Clean) b = B (MStartWs name) [] 0 0 o Clean).
-    { unfold lex_step. cbn [mode]. rewrite F1, F2, F3, F4, Hb, frev_rev, rev_involutive. reflexivity. }
+    { unfold lex_step. cbn [mode]. rewrite F1, F2, F6, F3, F4, Hb, frev_rev, rev_involutive. reflexivity. }
     rewrite E, !fold_left_app, lex_start_ws by assumption. split; reflexivity.
 Qed.
 
@@ -710,21 +727,21 @@ Lemma lex_end_tail name ws o : ws_ok ws ->
 Proof.
   intros HW. destruct ws as [|b ws].
   - cbn [app fold_left]. unfold lex_step. cbn [mode]. rewrite frev_rev, rev_involutive. reflexivity.
-  - inversion HW as [|? ? Hb HW']; subst. destruct (blank_facts _ Hb) as (F1 & F2 & F3 & F4 & _).
+  - inversion HW as [|? ? Hb HW']; subst. destruct (blank_facts _ Hb) as (F1 & F2 & F3 & F4 & _ & F6).
     cbn [app fold_left].
     assert (E : lex_step (B (MEndName (rev name)) [] 0 0 o Clean) b = B (MEndWs name) [] 0 0 o Clean).
-    { unfold lex_step. cbn [mode]. rewrite F1, F2, F3, Hb, frev_rev, rev_involutive. reflexivity. }
+    { unfold lex_step. cbn [mode]. rewrite F1, F2, F6, F3, Hb, frev_rev, rev_involutive. reflexivity. }
     rewrite E, fold_left_app, lex_end_ws by assumption. reflexivity.
 Qed.
 
-Lemma lex_piece_tag pc t p q o : piece_ok pc -> is_text pc = false ->
+Lemma lex_piece_tag pc t p q o : piece_ok pc -> is_text pc = false -> ascii t ->
   fold_left lex_step (piece_bytes pc) (B MText t p q o Clean) = B MText [] 0 0 (rev (piece_tokens pc) ++ flushed t o) Clean.
 Proof.
-  destruct pc as [l|n ws|n ws|n ws]; intros HP HT; try discriminate; destruct HP as [HN HW];
+  destruct pc as [l|n ws|n ws|n ws]; intros HP HT HA; try discriminate; destruct HP as [HN HW];
     destruct n as [|c r]; try contradiction; destruct HN as [Hc Hr];
-    destruct (name_start_facts _ Hc) as (G1 & G2 & G3 & G4 & G5 & _); cbn [piece_bytes piece_tokens rev app fold_left]; rewrite lex_lt.
+    destruct (name_start_facts _ Hc) as (G1 & G2 & G3 & G4 & G5 & _ & G7); cbn [piece_bytes piece_tokens rev app fold_left]; rewrite lex_lt by assumption.
   - assert (E : lex_step (B MLt [] 0 0 (flushed t o) Clean) c = B (MStartName [c]) [] 0 0 (flushed t o) Clean).
-    { unfold lex_step. cbn [mode]. rewrite G1, G2, G3, G4, Hc. reflexivity. }
+    { unfold lex_step. cbn [mode]. rewrite G1, G2, G3, G4, G7, Hc. reflexivity. }
     rewrite E, fold_left_app, lex_start_name_chars by assumption.
     replace (rev r ++ [c]) with (rev (c :: r)) by reflexivity. apply (lex_start_tail (c :: r) ws _ HW).
   - cbn [fold_left].
@@ -734,7 +751,7 @@ Proof.
     rewrite E0, E, fold_left_app, lex_end_name_chars by assumption.
     replace (rev r ++ [c]) with (rev (c :: r)) by reflexivity. apply (lex_end_tail (c :: r) ws _ HW).
   - assert (E : lex_step (B MLt [] 0 0 (flushed t o) Clean) c = B (MStartName [c]) [] 0 0 (flushed t o) Clean).
-    { unfold lex_step. cbn [mode]. rewrite G1, G2, G3, G4, Hc. reflexivity. }
+    { unfold lex_step. cbn [mode]. rewrite G1, G2, G3, G4, G7, Hc. reflexivity. }
     rewrite E, fold_left_app, lex_start_name_chars by assumption.
     replace (rev r ++ [c]) with (rev (c :: r)) by reflexivity. apply (lex_start_tail (c :: r) ws _ HW).
 Qed.
@@ -742,14 +759,20 @@ Qed.
 Lemma text_chars_nonnil l : l <> [] -> text_chars l <> [].
 Proof. destruct l; [contradiction|discriminate]. Qed.
 
+Lemma atoms_chars_ascii : forall l prev, atoms_ok prev l -> ascii (text_chars l).
+Proof.
+  induction l as [|a l IH]; intros prev H; [constructor|]. destruct H as [Ha Hl]. constructor; [|apply (IH _ Hl)].
+  destruct a as [c|raw c| |]; cbn in *; [tauto|tauto|reflexivity|reflexivity].
+Qed.
+
 Lemma lex_pieces : forall ps t p q o,
-  Forall piece_ok ps -> no_adjacent_text ps ->
+  Forall piece_ok ps -> no_adjacent_text ps -> ascii t ->
   (match ps with pc :: _ => is_text pc = true -> t = [] /\ q = 0 | [] => True end) ->
   exists t' p' q' o', fold_left lex_step (render ps) (B MText t p q o Clean) = B MText t' p' q' o' Clean
-     /\ rev (flushed t' o') = rev (flushed t o) ++ tokens_of ps.
+     /\ rev (flushed t' o') = rev (flushed t o) ++ tokens_of ps /\ ascii t'.
 Proof.
-  induction ps as [|pc ps IH]; intros t p q o HP HA HT.
-  - exists t, p, q, o. split; [reflexivity|]. cbn. rewrite app_nil_r. reflexivity.
+  induction ps as [|pc ps IH]; intros t p q o HP HA HAS HT.
+  - exists t, p, q, o. split; [reflexivity|]. split; [|assumption]. cbn. rewrite app_nil_r. reflexivity.
   - inversion HP as [|? ? Hpc HP']; subst.
     assert (HA' : no_adjacent_text ps) by (destruct ps; [exact I|apply HA]).
     unfold render, tokens_of in *. cbn [map concat]. rewrite fold_left_app.
@@ -757,16 +780,18 @@ Proof.
     + destruct pc as [l| | |]; try discriminate. destruct Hpc as [Hne Hok].
       destruct (HT eq_refl) as [-> ->].
       destruct (lex_atoms l [] p 0 o Hok) as (p1 & q1 & E1). cbn [piece_bytes]. rewrite E1.
-      destruct (IH (rev (text_chars l) ++ []) p1 q1 o HP' HA') as (t' & p' & q' & o' & E2 & E3).
+      destruct (IH (rev (text_chars l) ++ []) p1 q1 o HP' HA') as (t' & p' & q' & o' & E2 & E3 & E4).
+      { rewrite app_nil_r. apply ascii_rev. apply (atoms_chars_ascii l 0 Hok). }
       { destruct ps as [|pc2 ps]; [exact I|]. destruct HA as [HA _]. cbn in HA. intros H. rewrite H in HA. discriminate. }
-      exists t', p', q', o'. split; [exact E2|]. rewrite E3. cbn [piece_tokens app flushed rev].
+      exists t', p', q', o'. split; [exact E2|]. split; [|exact E4]. rewrite E3. cbn [piece_tokens app flushed rev].
       rewrite app_nil_r. destruct (rev (text_chars l)) as [|c r] eqn:ER.
       * exfalso. apply (text_chars_nonnil l Hne). apply (f_equal (@rev _)) in ER. rewrite rev_involutive in ER. exact ER.
       * cbn [flushed rev]. rewrite <- ER, frev_rev, rev_involutive, <- app_assoc. reflexivity.
-    + rewrite (lex_piece_tag pc t p q o Hpc T).
-      destruct (IH [] 0 0 (rev (piece_tokens pc) ++ flushed t o) HP' HA') as (t' & p' & q' & o' & E2 & E3).
+    + rewrite (lex_piece_tag pc t p q o Hpc T HAS).
+      destruct (IH [] 0 0 (rev (piece_tokens pc) ++ flushed t o) HP' HA') as (t' & p' & q' & o' & E2 & E3 & E4).
+      { constructor. }
       { destruct ps; [exact I|]. intros _. split; reflexivity. }
-      exists t', p', q', o'. split; [exact E2|]. rewrite E3. cbn [flushed].
+      exists t', p', q', o'. split; [exact E2|]. split; [|exact E4]. rewrite E3. cbn [flushed].
       rewrite rev_app_distr, rev_involutive, <- app_assoc. reflexivity.
 Qed.
 
@@ -810,12 +835,12 @@ Theorem lex_rendered ps : Forall piece_ok ps -> no_adjacent_text ps ->
   raw_tokens (render ps) = tokens_of ps /\ raw_status (render ps) = Clean.
 Proof.
   intros HP HA.
-  destruct (lex_pieces ps [] 0 0 [] HP HA) as (t' & p' & q' & o' & E & ET).
+  destruct (lex_pieces ps [] 0 0 [] HP HA) as (t' & p' & q' & o' & E & ET & EA).
+  { constructor. }
   { destruct ps; [exact I|]. intros _. split; reflexivity. }
-  unfold raw_tokens, raw_status, lex_run, lex_init. rewrite render_ascii by assumption. rewrite E.
-  unfold lex_finish. cbn [mode]. split.
-  - rewrite frev_rev. cbn in ET. rewrite <- ET. unfold flush, flushed. cbn [out txt]. destruct t'; reflexivity.
-  - reflexivity.
+  unfold raw_tokens, raw_status, lex_run, lex_init. rewrite E.
+  unfold lex_finish. cbn [mode]. rewrite flush_ascii by assumption. cbn [out st]. split; [|reflexivity].
+  rewrite frev_rev. cbn in ET. rewrite <- ET. reflexivity.
 Qed.
 
 (* ------------------------------------------------------------------------------------------- *)
